@@ -132,6 +132,10 @@ for d in sorted(os.listdir(ROOT)):
             'caught_by_own_property_first_pass': prop in FIRST.get(d, []),
         },
     }
+    if d == 'C01-m5':
+        meta['evaluation']['note'] = 'the change makes compilation hang; C01 and C18 end in their watchdog (exit 2, inconclusive) - by the interface a watchdog is never a violation, so this change is reported but not "caught"'
+    if d == 'C02-m4':
+        meta['evaluation']['note'] = 'first pass: the harness did not compile against the new AST variant, all 20 checks exited 2; fixed by catch-all arms'
     if d in AFTER:
         meta['evaluation']['strengthened'] = AFTER[d][1]
         meta['evaluation']['caught_by_after_strengthening'] = sorted(set(FIRST.get(d, [])) | set(AFTER[d][0]))
